@@ -34,7 +34,8 @@ def eval_cases(run, prop, cases, fn):
     through the matching legacy verdict function (model = Rt/Legacy.v)."""
     legacy = [c for c in cases if c["host"] == "legacy"]
     cases = [c for c in cases if c["host"] != "legacy"]
-    nsh = max(16, (len(cases) + 2499) // 2500)      # at most ~2500 cases per coqc process (memory)
+    # at most ~2500 cases and ~1.5 MB of case text per coqc process (memory); at least 16 shards
+    nsh = max(16, (len(cases) + 2499) // 2500, sum(len(c["impl"]) + len(c["acts"]) + len(c["handlers"]) + len(c["prog"]) for c in cases) // 1500000 + 1)
     shards = [s for s in (cases[i::nsh] for i in range(nsh)) if s]
     texts = [HEADER + "Definition cs : list rtcase := [\n" + ";\n".join(case_term(c) for c in sh) + "].\nEval vm_compute in (%s cs).\n" % fn for sh in shards]
     lfn = LEGACY_FN.get(fn, "verdicts_legacy_any") if fn not in ("fragment_flags", "core_fragment_flags") else None
